@@ -963,8 +963,13 @@ pub fn repetitions(ev: Ev, max_n: usize) -> Vec<(String, usize, String)> {
     // argument lists of k members, members plain or themselves aggregates
     if Func::Max.available(ev) {
         for k in &ks {
-            v.push(("list max(1,…)".into(), *k, format!("max({})", (0..*k).map(|i| (i % 9).to_string()).collect::<Vec<_>>().join(","))));
-            v.push(("list avg(max(1,2),…)".into(), *k, format!("avg({})", (0..*k).map(|i| format!("max({},{})", i % 7, i % 5)).collect::<Vec<_>>().join(","))));
+            // plain lists of k non-uniform values for every aggregate (a block-wise or pairwise reduction
+            // shows when k is not a multiple of its block: seeded change C11-r10, avg in blocks of 64)
+            for name in ["max", "min", "avg", "med", "median"] {
+                v.push((format!("list {}(1,…)", name), *k, format!("{}({})", name, (0..*k).map(|i| ((i * 37) % 101 + 1).to_string()).collect::<Vec<_>>().join(","))));
+                v.push((format!("list {}(step)", name), *k, format!("{}({})", name, (0..*k).map(|i| if i < *k / 2 { "0" } else { "65" }).collect::<Vec<_>>().join(","))));
+            }
+            v.push(("list avg(max(1,2),…)".into(), *k, format!("avg({})", (0..*k).map(|i| format!("max({},{})", i % 7 + 1, i % 5 + 2)).collect::<Vec<_>>().join(","))));
             v.push(("list med(min(3),…)".into(), *k, format!("med({})", (0..*k).map(|i| format!("min({})", i % 11)).collect::<Vec<_>>().join(","))));
             if Func::Gcd.available(ev) {
                 v.push(("list gcd(lcm(4,6),…)".into(), *k, format!("gcd({})", vec!["lcm(4,6)"; *k].join(","))));
@@ -1022,7 +1027,7 @@ pub fn shape_family(ev: Ev) -> Vec<(String, String)> {
         }
     }
     let vals: Vec<(&str, &str)> = match ev {
-        Ev::I64 => vec![("3", "4"), ("7", "2"), ("3037000500", "3"), ("12", "5")],
+        Ev::I64 => vec![("3", "4"), ("7", "2"), ("3037000500", "3"), ("12", "5"), ("(-7)", "2"), ("5", "(-2)")],
         Ev::Cpx => vec![("0.1", "0.4"), ("5.8", "1.5"), ("2i", "0.7"), ("3", "4")],
         Ev::Dec => vec![("0.1", "0.4"), ("5.8", "1.5"), ("3", "4"), ("0.0000000000000000000000000007", "3")],
         _ => vec![
@@ -1030,6 +1035,9 @@ pub fn shape_family(ev: Ev) -> Vec<(String, String)> {
             ("5.8", "1.5"),
             ("3", "4"),
             ("0.7", "0.3"),
+            // negative and half-way quotients (seeded change C15-r10: round of an Integer quotient, ties)
+            ("(-7)", "2"),
+            ("5", "(-2)"),
             ("100000000000000000000000000000000000000000000000000000000000000000000000000000000000000000000000000000000000000000000000000000000000000000000000000000000000000000000000000000000000000000000000000000000", "100000000000000000000000000000000000000000000000000000000000000000000000000000000000000000000000000000000000000000000000000000000000000000000000000000000000000000000000000000000000000000000000000000000"),
             ("0.00000000000000000000000000000000000000000000000000000000000000000000000000000000000000000000000000000000000000000000000000000000000000000000000000000000000000000000000000000000000000000000000000000001", "0.00000000000000000000000000000000000000000000000000000000000000000000000000000000000000000000000000000000000000000000000000000000000000000000000000000000000000000000000000000000000000000000000000000001"),
         ],
@@ -1060,6 +1068,61 @@ pub fn shape_family(ev: Ev) -> Vec<(String, String)> {
                         out.push((c.clone(), e.clone()));
                     }
                 }
+            }
+        }
+    }
+    out
+}
+
+// ---------------------------------------------------------------- repeated-operand family
+
+/// Three operations sharing an operand: `((a o1 b) o2 b) o3 b`, its right-nested mirror, and two-argument
+/// functions applied to (b, G(a,b)) and (G(a,b), b) - for every choice of operators / functions and value
+/// pairs of either sign, with ties and non-dyadic fractions. Idioms such as ((a%n)+n)%n, root(n, x^n),
+/// log(b^k, b), (a*b)/b are what peephole rewrites match on (seeded changes C09-r10, C10-r10); the
+/// reference evaluates them node by node. Returns (context with `{h}`, E) so that the same members also
+/// serve as (context, subexpression) pairs: the hole is the inner two levels.
+pub fn repeated_operand_family(ev: Ev) -> Vec<(String, String)> {
+    let vals: Vec<(&str, &str)> = match ev {
+        Ev::I64 => vec![("7", "(-3)"), ("(-7)", "3"), ("(-7)", "(-3)"), ("7", "3"), ("10", "(-4)"), ("(-5)", "2"), ("9", "2"), ("(-2)", "4")],
+        Ev::Cpx => vec![("(1+2i)", "2"), ("(-3)", "2"), ("2i", "(1-i)"), ("(-2)", "4")],
+        Ev::Dec => vec![("7", "(-3)"), ("(-7)", "3"), ("(-7)", "2"), ("2.5", "0.5"), ("(-2.5)", "2"), ("(-2)", "4"), ("0.1", "0.3")],
+        _ => vec![("7", "(-3)"), ("(-7)", "3"), ("(-7)", "2"), ("5", "(-2)"), ("2.5", "0.5"), ("(-2.5)", "2"), ("(-2)", "4"), ("(-5)", "2"), ("0.1", "0.3"), ("(3-7)", "2")],
+    };
+    let mut ops: Vec<&str> = vec!["+", "-", "*", "/", "^"];
+    if has_fact_mod(ev) {
+        ops.push("%");
+    }
+    let fun2: Vec<&'static str> = spellings_for(ev).into_iter().filter(|(_, f)| f.arity() == Arity::Two && !matches!(f, Func::ILog)).map(|(s, _)| s).collect();
+    let fun1: Vec<&'static str> = ["abs", "sqrt", "floor", "ceil", "round", "trunc", "sgn", "exp", "ln"].into_iter().filter(|n| spellings_for(ev).iter().any(|(s, _)| s == n)).collect();
+    let mut out = vec![];
+    for (a, b) in &vals {
+        for o1 in &ops {
+            for o2 in &ops {
+                let inner_l = format!("({}{}{}){}{}", a, o1, b, o2, b);
+                let inner_r = format!("{}{}({}{}{})", b, o2, b, o1, a);
+                for o3 in &ops {
+                    out.push((format!("{{h}}{}{}", o3, b), inner_l.clone()));
+                    out.push((format!("{}{}{{h}}", b, o3), inner_r.clone()));
+                }
+                for f in &fun1 {
+                    out.push((format!("{}({{h}})", f), inner_l.clone()));
+                }
+            }
+            // two-argument functions over (b, a o1 b) and (a o1 b, b), the inner part also as a function
+            for f in &fun2 {
+                out.push((format!("{}({},{{h}})", f, b), format!("{}{}{}", a, o1, b)));
+                out.push((format!("{}({{h}},{})", f, b), format!("{}{}{}", a, o1, b)));
+                for g in &fun2 {
+                    out.push((format!("{}({},{{h}})", f, b), format!("{}({},{})", g, a, b)));
+                    out.push((format!("{}({{h}},{})", f, b), format!("{}({},{})", g, b, a)));
+                }
+            }
+        }
+        // superscript forms of the shared exponent
+        if let Ok(n) = b.parse::<u32>() {
+            for f in &fun2 {
+                out.push((format!("{}({},{{h}})", f, b), format!("{}{}", a, crate::syntax::to_sup(&n.to_string()))));
             }
         }
     }
